@@ -125,6 +125,11 @@ def families(eng, tier, seed):
     # a crate): generation must fail, or (after de-duplication) name each id with an item of its own shape. On a
     # correct tree the first form yields no obligation; a generator that silently merges the two is caught here.
     import c03
+    for vn, segs in (("versions", ("v1", "v2")), ("versions_hdr", ("h1", "h2")), ("versions_hdr_mirror", ("h1", "h2"))):
+        r = strip_segment(C[vn], segs)
+        fams.append(make_family("samepath-%s" % vn, r, STD, symbolic=False)); fams.append(make_family("samepath-%s-dedup" % vn, r, STD, symbolic=False, dedup=True))
+        rr = permute(r, list(reversed(range(len(r)))))
+        fams.append(make_family("samepath-%s-reversed" % vn, rr, STD, symbolic=False)); fams.append(make_family("samepath-%s-reversed-dedup" % vn, rr, STD, symbolic=False, dedup=True))
     for ename, efn in c03.edits():
         for order in (0, 1):
             r = c03.edit_family(ename, efn, order)(None)
